@@ -24,50 +24,57 @@ CONFIGS = {
     'quick': [
         # name, constants
         ('N1', dict(N=1, Kinds={"ea", "eb"}, RootCfg="R1", Axes=set(AXES),
-                    Tests={"node()", "*", "a", "text()"}, Preds={"1", "last()"}, ParenPreds={"1"}, Preds2=set())),
+                    Tests={"node()", "*", "a", "text()"}, Preds={"1", "last()"}, ParenPreds={"1"}, Preds2=set(), DocSibs=False)),
         ('N2', dict(N=2, Kinds={"ea", "eb", "t", "c", "p", "xa"}, RootCfg="R1", Axes=set(AXES),
                     Tests={"node()", "*", "a", "b", "text()", "comment()", "processing-instruction()"},
-                    Preds={"1", "2", "last()", "b"}, ParenPreds={"1", "2", "last()"}, Preds2=set())),
+                    Preds={"1", "2", "last()", "b"}, ParenPreds={"1", "2", "last()"}, Preds2=set(), DocSibs=False)),
         ('N3', dict(N=3, Kinds={"ea", "eb", "t", "c", "p", "xa"}, RootCfg="R1", Axes=set(AXES),
                     Tests={"node()", "*", "a", "b", "text()", "comment()", "processing-instruction()"},
-                    Preds={"1", "2", "last()", "b"}, ParenPreds={"1", "2", "last()"}, Preds2=set())),
+                    Preds={"1", "2", "last()", "b"}, ParenPreds={"1", "2", "last()"}, Preds2=set(), DocSibs=False)),
         ('N3-R2', dict(N=3, Kinds={"ea", "eb", "t", "xa"}, RootCfg="R2", Axes=set(AXES),
-                       Tests={"node()", "*", "a", "text()"}, Preds={"1", "last()"}, ParenPreds={"last()"}, Preds2=set())),
+                       Tests={"node()", "*", "a", "text()"}, Preds={"1", "last()"}, ParenPreds={"last()"}, Preds2=set(), DocSibs=False)),
         ('N3-R3', dict(N=3, Kinds={"ea", "eb", "t", "xa"}, RootCfg="R3", Axes=set(AXES),
-                       Tests={"node()", "*", "a", "text()"}, Preds={"1", "last()"}, ParenPreds={"last()"}, Preds2=set())),
+                       Tests={"node()", "*", "a", "text()"}, Preds={"1", "last()"}, ParenPreds={"last()"}, Preds2=set(), DocSibs=False)),
         ('N4', dict(N=4, Kinds={"ea", "eb", "t"}, RootCfg="R1", Axes=set(AXES),
-                    Tests={"node()", "*", "a", "text()"}, Preds={"2"}, ParenPreds={"2"}, Preds2=set())),
+                    Tests={"node()", "*", "a", "text()"}, Preds={"2"}, ParenPreds={"2"}, Preds2=set(), DocSibs=False)),
         # namespaced names: prefix:name, prefix:*, *:name tests (urn:x is a string prefix of urn:x-y)
         ('N3-NS', dict(N=3, Kinds={"ea", "en", "em", "xn"}, RootCfg="R1",
                        Axes={"self", "child", "attribute", "parent", "descendant", "descendant-or-self"},
-                       Tests={"node()", "*", "a", "p:a", "p:*", "q:*", "*:a"}, Preds=set(), ParenPreds=set(), Preds2=set())),
+                       Tests={"node()", "*", "a", "p:a", "p:*", "q:*", "*:a"}, Preds=set(), ParenPreds=set(), Preds2=set(), DocSibs=False)),
+        # lxml documents with comments / PIs before and after the document element
+        ('N3-DS', dict(N=3, Kinds={"ea", "eb", "c", "p", "t"}, RootCfg="R1", Axes=set(AXES),
+                       Tests={"node()", "*", "comment()"}, Preds={"1"},
+                       ParenPreds=set(), Preds2=set(), DocSibs=True)),
         # steps with TWO predicates: the second numbers the survivors of the first along the axis
         ('N3-P2', dict(N=3, Kinds={"ea", "eb", "t"}, RootCfg="R1",
                        Axes={"child", "descendant", "ancestor", "ancestor-or-self", "preceding", "preceding-sibling",
                              "following", "following-sibling"},
-                       Tests={"node()", "*"}, Preds=set(), ParenPreds=set(), Preds2={"position()<3", "b"})),
+                       Tests={"node()", "*"}, Preds=set(), ParenPreds=set(), Preds2={"position()<3", "b"}, DocSibs=False)),
     ],
     'thorough': [
         ('N3-full', dict(N=3, Kinds={"ea", "eb", "t", "c", "p", "xa", "xc"}, RootCfg="R1", Axes=set(AXES),
                          Tests={"node()", "*", "a", "b", "c", "text()", "comment()", "processing-instruction()"},
                          Preds={"1", "2", "last()", "position()<2", "b", "@a", "not(b)", "text()"},
-                         ParenPreds={"1", "2", "last()", "b"}, Preds2=set())),
+                         ParenPreds={"1", "2", "last()", "b"}, Preds2=set(), DocSibs=False)),
         ('N4-R1', dict(N=4, Kinds={"ea", "eb", "t", "c", "xa"}, RootCfg="R1", Axes=set(AXES),
                        Tests={"node()", "*", "a", "b", "text()", "comment()"},
-                       Preds={"1", "2", "last()", "b"}, ParenPreds={"1", "2", "last()"}, Preds2=set())),
+                       Preds={"1", "2", "last()", "b"}, ParenPreds={"1", "2", "last()"}, Preds2=set(), DocSibs=False)),
         ('N4-R2', dict(N=4, Kinds={"ea", "eb", "t", "xa"}, RootCfg="R2", Axes=set(AXES),
-                       Tests={"node()", "*", "a", "text()"}, Preds={"1", "2", "last()"}, ParenPreds={"last()"}, Preds2=set())),
+                       Tests={"node()", "*", "a", "text()"}, Preds={"1", "2", "last()"}, ParenPreds={"last()"}, Preds2=set(), DocSibs=False)),
         ('N4-R3', dict(N=4, Kinds={"ea", "eb", "t", "xa"}, RootCfg="R3", Axes=set(AXES),
-                       Tests={"node()", "*", "a", "text()"}, Preds={"1", "2", "last()"}, ParenPreds={"last()"}, Preds2=set())),
+                       Tests={"node()", "*", "a", "text()"}, Preds={"1", "2", "last()"}, ParenPreds={"last()"}, Preds2=set(), DocSibs=False)),
         ('N4-P2', dict(N=4, Kinds={"ea", "eb", "t"}, RootCfg="R1",
                        Axes={"child", "descendant", "ancestor", "ancestor-or-self", "preceding", "preceding-sibling",
                              "following", "following-sibling"},
-                       Tests={"node()", "*"}, Preds=set(), ParenPreds=set(), Preds2={"position()<3", "b"})),
+                       Tests={"node()", "*"}, Preds=set(), ParenPreds=set(), Preds2={"position()<3", "b"}, DocSibs=False)),
         ('N3-NS-full', dict(N=3, Kinds={"ea", "en", "em", "xn", "xa", "t"}, RootCfg="R1", Axes=set(AXES),
                             Tests={"node()", "*", "a", "p:a", "p:*", "q:a", "q:*", "*:a"}, Preds={"1", "last()"},
-                            ParenPreds=set(), Preds2=set())),
+                            ParenPreds=set(), Preds2=set(), DocSibs=False)),
+        ('N4-DS', dict(N=4, Kinds={"ea", "eb", "c", "p", "t"}, RootCfg="R1", Axes=set(AXES),
+                       Tests={"node()", "*", "a", "comment()", "processing-instruction()"}, Preds={"1", "last()"},
+                       ParenPreds={"1"}, Preds2=set(), DocSibs=True)),
         ('N5', dict(N=5, Kinds={"ea", "eb", "t"}, RootCfg="R1", Axes=set(AXES),
-                    Tests={"node()", "*", "a", "text()"}, Preds={"2", "last()"}, ParenPreds={"2"}, Preds2=set())),
+                    Tests={"node()", "*", "a", "text()"}, Preds={"2", "last()"}, ParenPreds={"2"}, Preds2=set(), DocSibs=False)),
     ],
 }
 
@@ -170,6 +177,8 @@ def ep_eval(doc: Doc, root_cfg: str, version: str, text: str, mode: str):
     import elementpath
     if root_cfg == 'R1':
         root, kw = doc.tree, {}
+    elif root_cfg == 'R1elem':      # an lxml Element that has document-level siblings: its document is the root
+        root, kw = doc.root, {}
     elif root_cfg == 'R2':
         root, kw = doc.root, {}
     else:
@@ -212,7 +221,12 @@ def kinds_of(kind: tuple, nodes) -> str:
 def tree_worker(job):
     """Replay every transition of one tree."""
     (parent, kind, root_cfg, states, init_sid, out_edges, seed, modes_all) = job
-    docs = {'etree': Doc(parent, kind, 'etree'), 'lxml': Doc(parent, kind, 'lxml')}
+    docs = {'lxml': Doc(parent, kind, 'lxml')}
+    if not docs['lxml'].doc_siblings:
+        docs['etree'] = Doc(parent, kind, 'etree')      # xml.etree cannot hold document-level siblings
+    else:
+        docs['lxml-elem'] = docs['lxml']                # the same document, given as its root Element
+    libs = tuple(docs)
     versions = ['1.0', '2.0', '3.0', '3.1']
     rnd = random.Random(hash((parent, kind, seed)) & 0xffffffff)
     prefix = {init_sid: '/' if root_cfg == 'R1' else ''}
@@ -247,7 +261,11 @@ def tree_worker(job):
                 # lxml evaluates relative paths of a tree from the root element, so only absolute texts in R1;
                 # lxml cannot return the document node)
                 xp1 = '*:' not in text     # the wildcard-prefix name test is XPath 2.0+
-                if xp1 and root_cfg == 'R1' and text.startswith(('/', '(/')) and 0 not in expected:
+                # libxml2's preceding axis stops at doc->children (it assumes the first child of the document is
+                # the document element), so with comments/PIs AFTER the document element it loses the element
+                # itself: `//preceding::*` on <a/><!--c--> is empty.  Not used as oracle for that axis there.
+                lx_ok = not (docs['lxml'].doc_siblings and 'preceding::' in text)
+                if lx_ok and xp1 and root_cfg == 'R1' and text.startswith(('/', '(/')) and 0 not in expected:
                     lres = lx_eval(docs['lxml'], root_cfg, text)
                     stats['lx_evals'] += 1
                     if lres != expected:
@@ -256,14 +274,14 @@ def tree_worker(job):
                 for v in versions:
                     if v == '1.0' and not xp1:
                         continue
-                    for lib in ('etree', 'lxml'):
+                    for lib in libs:
                         if modes_all:
                             modes = ('selector', 'selector_iter', 'select', 'iter_select')
                         else:
                             modes = ('selector', ('selector_iter', 'select', 'iter_select')[rnd.randrange(3)]) \
                                 if rnd.random() < 0.1 else ('selector',)
                         for mode in modes:
-                            obs = ep_eval(docs[lib], root_cfg, v, text, mode)
+                            obs = ep_eval(docs[lib], 'R1elem' if lib == 'lxml-elem' else root_cfg, v, text, mode)
                             stats['evaluations'] += 1
                             if obs != expected:
                                 edge_ok = False
@@ -297,7 +315,7 @@ def tree_worker(job):
                 prefix[dst] = texts[0]
                 queue.append(dst)
                 if len(samples) < 2 and len(expected) > 1:
-                    samples.append(dict(xml=docs['etree'].xml(), root=root_cfg, path=prefix[dst], expected_ids=expected))
+                    samples.append(dict(xml=docs['lxml'].xml(), root=root_cfg, path=prefix[dst], expected_ids=expected))
     unreached = len(states) - len(prefix)
     return stats, list(failures.values()), oracle_disagreements[:5], len(oracle_disagreements), unreached, samples
 
@@ -398,7 +416,7 @@ def trace_worker(job):
             for key, (obs, engines) in groups.items():
                 cid = f'{n}-{seed}-{ti}-{pi}-{len(recs)}'
                 case = dict(tree=[parent, kind], root='R1', path=text, parser=engines[0].split('/')[0],
-                            lib=engines[0].split('/')[1], mode='selector', xml=docs['etree'].xml(), engines=engines)
+                            lib=engines[0].split('/')[1], mode='selector', xml=docs['lxml'].xml(), engines=engines)
                 if obs and obs[0] == 'err' or any(not isinstance(x, int) for x in obs):
                     direct_fail.append((case, obs, steps))
                 else:
@@ -432,7 +450,7 @@ def run_traces(chk: core.Check) -> None:
             for r in recs:
                 f.write(json.dumps(dict(id=r['id'], p=r['p'], k=r['k'], steps=r['steps'], obs=r['obs'])) + '\n')
         consts = dict(N=n, Kinds={"ea", "eb", "t", "c", "p", "xa", "xc"}, RootCfg='R1', Axes=set(AXES),
-                      Tests=set(ALL_TESTS), Preds=set(ALL_PREDS), ParenPreds={"1", "2", "last()", "b"}, Preds2=set())
+                      Tests=set(ALL_TESTS), Preds=set(ALL_PREDS), ParenPreds={"1", "2", "last()", "b"}, Preds2=set(), DocSibs=False)
         cfg = tla.cfg_text(consts, spec='TraceSpec', invariants=['Report'], postcondition='TraceAccepted')
         r = tla.require_ok(tla.run_tlc('TracePaths', cfg, wd, workers=1, env={'TRACE_FILE': tf}, timeout=3000),
                            f'TracePaths/N{n}', min_distinct=2 * len(recs))
@@ -467,8 +485,8 @@ def run_traces(chk: core.Check) -> None:
 def replay_case(case: dict) -> list:
     """Re-evaluate one recorded case on the working tree; returns [] if it now agrees."""
     parent, kind = tuple(case['tree'][0]), tuple(case['tree'][1])
-    doc = Doc(parent, kind, case['lib'])
-    return ep_eval(doc, case['root'], case['parser'], case['path'], case['mode'])
+    doc = Doc(parent, kind, 'lxml' if case['lib'] == 'lxml-elem' else case['lib'])
+    return ep_eval(doc, 'R1elem' if case['lib'] == 'lxml-elem' else case['root'], case['parser'], case['path'], case['mode'])
 
 
 def replay(rec: dict) -> int:
